@@ -3,9 +3,12 @@ src/tree_data_sorted.c against coq/RBTree.v + coq/Sorted.v (driver impl/t_sorted
 
 Components (Comp):  RbStatic   `rbs <every> <ops>`                 the static rb_insert_node / rb_remove / rb_find on free nodes
                     LydsApi    `lyds <type> <place> <every> <ops>` one system-ordered (leaf-)list through the public API
-Oracle:             SortedOrder  the same `lyds` lines judged on the implementation alone: after every call the
-                                 read-only checker is quiet, the instances are sorted by key and equal keys are in
-                                 insertion order (C04_sorted_history / C04_insert_order_independent on the implementation)
+Oracle:             SortedOrder  `lyds` lines (also with the ops s<i> = lyd_unlink_siblings -> lyds_split and m = insert the chain
+                                 again -> lyds_merge, which are NOT in the Coq model) judged on the implementation alone against
+                                 the abstract sequence semantics: checker quiet after every call, insert = stable insert, free =
+                                 delete position, split = keep the prefix, merge = sorted union with the destination in place
+                                 (C04_sorted_history / C04_insert_order_independent on the implementation)
+Finding of this slice (fixed in /repo cefb23b, regression histories MERGE_REGRESS): lyds_merge_nodes2 read *next_p uninitialised.
 
 After EVERY op both sides print `result/dump/inv`: the dump is the sibling order, the pre-order of the red-black tree with
 colours (same algorithm => same SHAPE, compared exactly), the metadata owner and the pool of unlinked nodes; inv is the
@@ -281,39 +284,19 @@ class LydsApi(_Base):
         return L
 
 
-def merge2_trigger(ops, place):
-    """index of the first `m` op that runs lyds_merge_nodes2() with nothing to move to the back (known finding
-    lyds-merge2-next-uninit: *next_p is then read uninitialised), found by simulating the keys only:
-    the destination list has no tree, the chain's leader carries one, and no chain key is greater than the last
-    destination key; the chain has at least two nodes (otherwise lyd_insert_child is a plain insert)"""
-    keys, has_tree, chain, chain_tree = [], False, None, False
-    for i, op in enumerate(ops):
-        arg = int(op[1:]) if len(op) > 1 else 0
-        if op[0] == "i":
-            has_tree = has_tree or len(keys) >= 1
-            keys = sorted(keys + [arg])
-        elif op[0] in "du":
-            if 0 <= arg < len(keys):
-                keys = keys[:arg] + keys[arg + 1:]
-                if not keys:
-                    has_tree = False
-        elif op[0] == "s":
-            if chain is None and 0 <= arg < len(keys):
-                if arg == 0:
-                    chain, chain_tree, keys, has_tree = keys, has_tree, [], False
-                else:
-                    chain, chain_tree, keys = keys[arg:], False, keys[:arg]
-        elif op[0] == "m":
-            if chain is not None:
-                total = len(chain) + (1 if place[1] == "2" else 0)
-                if keys:
-                    if not has_tree and chain_tree and total >= 2 and max(chain) <= keys[-1]:
-                        return i
-                    keys, has_tree = sorted(keys + chain), True
-                else:
-                    keys, has_tree = chain, chain_tree
-                chain = None
-    return None
+# regression: lyds_merge_nodes2() used to read *next_p uninitialised when lyds_merge_nodes2_back() had nothing to move
+# (destination list without tree, chain leader with a tree, no chain key greater than the last destination key): crash /
+# stale node linked into the list. Fixed in /repo commit cefb23b; these histories must pass (also under ASan).
+MERGE_REGRESS = [
+    "lyds\ti8\tc0\t1\ti-2 i0 s0 i0 m",
+    "lyds\ti8\tc0\t1\ti1 i2 s0 i5 m i3 q1 s0 m",
+    "lyds\ti8\tt0\t1\ti1 i2 s0 i5 m i3",
+    "lyds\tl1\tc2\t1\ti1 i2 s0 i5 m i3 d0 i1",
+    "lyds\tstr\tt1\t1\ti1 i2 s0 i5 m i3 q1",
+    "lyds\tl2\tc1\t1\ti-2 i0 s0 i2 d0 i0 m s0 m",
+    "lyds\td64\tt2\t1\ti-7 i-15 s0 i13 m i-12 d2 q2 i19 i-12 s2 m i7 d2 i6 i-8 i17 i-6 i15 d5 s0 i-11 m d6 i6",
+    "lyds\tun\tc2\t1\ti-3 i-1 i2 s0 i2 m s0 i3 i2 m s1 i0 m",
+]
 
 
 def is_subseq(a, b):
@@ -332,7 +315,7 @@ class SortedOrder:
     driver = "t_sorted"
 
     def gen(self, rng, tier, scale=1.0):
-        L = []
+        L = list(MERGE_REGRESS)
         n = int((400 if tier == "thorough" else 40) * scale)
         for _ in range(n):
             t, p = rng.choice(TYPES), rng.choice(PLACES)
@@ -352,8 +335,6 @@ class SortedOrder:
                     live -= 1
             L.append("lyds\t%s\t%s\t1\t%s" % (t, p, " ".join(ops)))
         # split / merge histories
-        import vlib
-        skip_known = any(k.get("tag") == "lyds-merge2-next-uninit" and k.get("status") == "known" for k in vlib.load_known())
         for _ in range(int((600 if tier == "thorough" else 60) * scale)):
             t, p = rng.choice(TYPES), rng.choice(PLACES)
             nk = rng.choice([3, 6, 40])
@@ -378,26 +359,10 @@ class SortedOrder:
                     chain = 0
                 else:
                     ops.append("q%d" % rng.randrange(-(nk // 2), nk - nk // 2))
-            if skip_known and merge2_trigger(ops, p) is not None:
-                # runs into the known finding lyds-merge2-next-uninit (uninitialised read: it can damage the heap of the
-                # driver process and make LATER cases fail); the finding is replayed from its recorded witness instead.
-                # Histories of this kind are generated again as soon as the entry is removed from known_findings.d/sorted.json
-                continue
             L.append("lyds\t%s\t%s\t1\t%s" % (t, p, " ".join(ops)))
         return L
 
     def judge(self, line, out):
-        j = self.judge1(line, out)
-        if j:
-            # a failure at or after a merge that reads the uninitialised *next_p belongs to that known finding
-            f = line.split("\t")
-            t = merge2_trigger(f[-1].split(" "), f[2])
-            m = re.match(r"op (\d+) ", j[1])
-            if t is not None and (not m or int(m.group(1)) >= t):
-                return ("lyds-merge2-next-uninit", j[1])
-        return j
-
-    def judge1(self, line, out):
         f = line.split("\t")
         ops = f[-1].split(" ")
         j = judge_tokens("lyds", ops, out)
